@@ -296,9 +296,11 @@ func rC01Regex(w *World, r *Report) {
 	}
 	used := map[*ssa.Global]bool{}
 	for _, c := range callsTo(fn, "(*regexp.Regexp).FindStringSubmatch") {
-		if ld, ok := c.Common().Args[0].(*ssa.UnOp); ok {
-			if g, ok := ld.X.(*ssa.Global); ok {
-				used[g] = true
+		for _, leaf := range phiLeaves(c.Common().Args[0], map[ssa.Value]bool{}) {
+			if ld, ok := leaf.(*ssa.UnOp); ok {
+				if g, ok := ld.X.(*ssa.Global); ok {
+					used[g] = true
+				}
 			}
 		}
 	}
